@@ -7,19 +7,19 @@ ROOT = os.path.dirname(os.path.dirname(os.path.abspath(__file__)))
 # id -> (level, technique, text, note, engine)
 CHECKS = {
  "C01": ("exploration", "stateful PBT over a deterministic session simulator (generated schedules, virtual clock, seeded select!)",
-         "Generated histories of 1-4 callers, idle notifications, timer advances around the 100 ms window, held/released reply bytes and cancellations are run against the real Client over a simulated MPD; every non-cancelled request must resolve to exactly the abstract reply the simulated server recorded for its token, per-caller order is checked on the server transcript. Explores, never proves.",
+         "Generated histories of 1-4 callers, idle notifications, timer advances around the 100 ms window, held/released reply bytes and cancellations are run against the real Client over a simulated MPD; every non-cancelled request must resolve to exactly the abstract reply the simulated server recorded for its token, per-caller order is checked on the server transcript; plus every sequence of <= 4 (thorough 5) atomic steps over a 13-letter alphabet. Explores, never proves.",
          "simulated MPD (idle rules, reply table) is the judge; schedules are those of a current-thread tokio runtime with paused clock and seeded select!; tokio channels/timers trusted", "sim"),
  "C02": ("exploration", "metamorphic + differential PBT (segmentation invariance, blocking = async) and libFuzzer target with the same oracle",
-         "Generated streams (well-formed, truncated, corrupted, beyond 4 KiB and its doublings) are fed under whole/one-byte/random/every-single-cut/buffer-edge segmentations to both connection flavours; outcome sequences must be identical. Small streams get every cut point.",
+         "Generated streams (well-formed, truncated, corrupted, beyond 4 KiB and its doublings) are fed under whole/one-byte/random/every-single-cut/buffer-edge segmentations to both connection flavours; outcome sequences must be identical. Small streams get every cut point, all streams get cuts at fixed distances past every response boundary.",
          "outcome compared through public accessors; greeting always ends a read (a server sends nothing before it has read a command)", "streamlab"),
  "C03": ("exploration", "round-trip PBT against an independent encoder written from the protocol grammar",
          "Abstract responses (keyword-mimicking values, binary payloads with protocol look-alikes, list/ACK shapes, several per connection) are encoded by the harness and must decode to exactly the abstract value, then clean EOF.",
          "harness encoder is the reference for 'well-formed'; keys stay inside the documented alphabet", "streamlab"),
  "C04": ("exploration", "stateful PBT over the session simulator with a history invariant",
-         "Histories biased to server-side changes (multi-name replies, unknown names, replies cut inside/between lines, changes in the re-idle window, the noidle race); the event sequence must equal the concatenation of all 'changed:' lines the simulated server wrote. Open finding F-B (select! cancels a partial receive) is forgiven only on its exact signature.",
+         "Histories biased to server-side changes (multi-name replies, unknown names, replies cut inside/between lines, changes in the re-idle window, the noidle race); the event sequence must equal the concatenation of all 'changed:' lines the simulated server wrote (nothing is forgiven: finding F-B is fixed in /repo and its witness is replayed on every run); plus every sequence of <= 4 atomic steps over a 13-letter alphabet and a slow-consumer part with up to 10 000 pending events.",
          "as C01", "sim"),
  "C05": ("exploration", "stateful PBT: a simulated MPD judges every line the client writes",
-         "Same histories as C01/C04 (fault-free, with partial writes); the simulated server flags any command other than noidle while idling, any request while earlier reply bytes are unread, a first line other than idle, and a missing re-idle after the 100 ms window at quiescent points.",
+         "Same histories as C01/C04 (fault-free, with partial writes); the simulated server flags any command other than noidle while idling, any request while earlier reply bytes are unread, a first line other than idle, a missing re-idle after the 100 ms window at quiescent points, and a session that stalls (a request never answered); plus the systematic step sequences of C01.",
          "server model implements MPD's documented idle rules; as C01", "sim"),
  "C06": ("exploration", "round-trip PBT + small-scope exhaustive enumeration through a port of MPD's Tokenizer",
          "Every string of length <= 4 (thorough 5) over one representative per character class, at four argument positions, plus random argument lists sent by send/send_list, must be read back by the MPD tokenizer port as exactly the name and arguments. Open finding F-C is forgiven only when the wire token is exactly the recorded wrong rendering.",
@@ -28,7 +28,7 @@ CHECKS = {
          "Arbitrary and near-miss names, every Argument type incl. a raw-bytes renderer with LF at any position; rejected arguments must leave the command ==/hash/bytes-identical, accepted ones must land as in a twin that never saw the rejected ones; every command is one line and list blocks have exactly begin, n lines, end.",
          "MPD recognises list framing by exact comparison of the right-stripped line", "cmdlab"),
  "C08": ("fault_enumeration", "fault-injection PBT over the session simulator (generated fault kind x byte offset x queue depth; thorough enumerates offsets)",
-         "One generated fault (clean close, EOF at any byte of any reply, malformed line, persistent read/write error, last handle dropped) per history with 0-4 requests queued and 0-3 issued later; resolution, closure, event-stream and surfacing invariants E1-E7 are checked under a virtual-time bound.",
+         "One generated fault (clean close, EOF at any byte of any reply, malformed line, persistent read/write error, last handle dropped) per history with 0-4 requests queued and 0-3 issued later; resolution, closure, event-stream and surfacing invariants E1-E7 are checked under a virtual-time bound; a second part moves the EOF / read error to every byte offset of the server's output and the write error to every write index of generated scripts.",
          "as C01; hang detection through virtual time", "sim"),
  "C09": ("exploration", "PBT + coverage-guided fuzzing (libFuzzer) with a reference decoder as oracle",
          "Random bytes, mutated encoder output and a dictionary of numeric/UTF-8/NUL edge lines under all segmentations: no panic, bounded reads, outcome equal to an independent non-streaming reference decoder, two further receive calls must return.",
